@@ -49,3 +49,11 @@ Theorem update_id_preserves : forall o n d, NoDup (keys (dcomps d)) -> In o (key
   forall fuel x idx, x <> n -> sem fuel d' (ren o n x) idx = sem fuel d x idx.
 Proof. exact Lemmas.update_id_preserves. Qed.
 Print Assumptions update_id_preserves.
+
+(* the position of the attributes in the table is irrelevant to what remove_component removes: two tables with the same
+   entries in any two orders (so also orders in which a derived attribute precedes its inputs, as after re-defining an
+   attribute in place or after reorder_components) keep exactly the same entries *)
+Theorem remove_order_independent : forall c l1 l2, NoDup (keys l1) -> NoDup (keys l2) -> (forall e, In e l1 <-> In e l2) ->
+  forall x k, In (x, k) (remove_fuel (length l1) c l1) <-> In (x, k) (remove_fuel (length l2) c l2).
+Proof. exact Lemmas.remove_order_independent. Qed.
+Print Assumptions remove_order_independent.
